@@ -30,6 +30,10 @@ Fixpoint set_nth_nat (i : nat) (v : nat) (l : list nat) : list nat :=
 Definition invert_perm (perm : list nat) : list nat :=
   fold_left (fun acc ij => set_nth_nat (snd ij) (fst ij) acc) (combine (seq 0 (length perm)) perm) (repeat 0 (length perm)).
 
+(* scan_in_dim builds perm from the caller's axis values as given: a negative entry j indexes perm_inv from the end *)
+Definition invert_perm_z (perm : list Z) : list nat :=
+  invert_perm (map (fun j => Z.to_nat (if (j <? 0)%Z then (j + Z.of_nat (length perm))%Z else j)) perm).
+
 (* ---------------- prefetch_to_device ---------------- *)
 Inductive ev := Item (x : N) | Stop | Err.
 Definition ev_beq (a b : ev) : bool :=
